@@ -260,6 +260,37 @@ theorem C05_trait_rpc_frame (S : Schema) (ty : Nat) (resW R reqMask : Option (Li
       exact hm
     exact C05_intercept_frame S ty _ _ none stored src st s k ha' hd hk h
 
+/-- **C05_trait_rpc_scalar_in.**  Inside the request's mask a `Set` call of the repaired RPC stores
+what its before-interceptor (none on the preset path, delta + cap on the plain path: ANY function)
+made of the written message: for a scalar path `p` named by the request's mask, inside the server's
+writable fields and unrelated to its reset paths, under the tree hypotheses of `C05_scalar_in`. -/
+theorem C05_trait_rpc_scalar_in (S : Schema) (ty : Nat) (resW R : Option (List Path)) (before : Option Icpt)
+    (stored src st s : Fields) (m : Path) (ms : List Path) (p : Path)
+    (hMc : Clean (m :: ms)) (hMn : NonNil (m :: ms))
+    (hp : p ∈ m :: ms) (hout : ∀ q ∈ m :: ms, strictPrefix q p = false)
+    (hW : ∀ W, resW = some W → Clean (union W []) ∧ NonNil (union W []) ∧ ∃ w ∈ union W [], w <+: p)
+    (hR : ∀ R', R = some R' → Clean R' ∧ Unrelated p R')
+    (hdisp : NoDispAlong S ty p) (hnd : NoDupAlong p stored)
+    (hns : NoDupAlong p (Icpt.run before stored src))
+    (hsc : ∀ v, (Icpt.run before stored src).getPath p = some v → ∃ t, v = .sc t)
+    (h : rpcAsStated S ty resW R (some (m :: ms)) before stored src = .ok st s) :
+    st.getPath p = (Icpt.run before stored src).getPath p := by
+  unfold rpcAsStated at h
+  obtain ⟨hu, hr, hw⟩ := rpcAsStated_updater resW R (some (m :: ms))
+  refine C05_intercept_scalar_in S ty _ before none stored src st s m ms p hu hMc hMn hp hout ?_ ?_
+    hdisp hnd hns hsc (by intro g hg; cases hg) h
+  · intro W hW'
+    rw [hw] at hW'
+    cases resW with
+    | none => cases hW'
+    | some W0 =>
+      simp only [Option.map_some, Option.some.injEq] at hW'
+      subst hW'
+      exact hW W0 rfl
+  · intro R' hR'
+    rw [hr] at hR'
+    exact hR R' hR'
+
 /-- The repaired RPC on the witness of `C05_trait_mask_dropped_fails`: the empty mask changes
 nothing, the unknown path is rejected, and the ordinary request still replaces `g`. -/
 example : ∀ preset, ∃ s,
@@ -270,6 +301,72 @@ example : ∀ preset, ∃ s,
     (rpcUpdateBrightness wSchema 0 (some [["g"]]) none (some [["g"]]) preset (fun _ m => m) wStored (.cons "g" (.sc "i9") .nil)
       = .ok (.cons "f" (.msg (.cons "c" (.sc "i1") (.cons "d" (.sc "i2") .nil))) (.cons "g" (.sc "i9") .nil)) s) := by
   intro preset; cases preset <;> exact ⟨.cons "g" (.sc "i9") .nil, by decide, by decide, by decide⟩
+
+/-! ## A server rule that widens the request's mask: lightpb.Model's presets
+
+`lightpb.ModelServer.UpdateBrightness` hands `WithUpdateMask(request.UpdateMask)` to
+`lightpb.Model.UpdateBrightness`, which — when the request selects a configured preset
+(`setLevelFromPreset`: the written message gets the preset's level and configured title) — appends
+`WithMoreUpdatePaths("level_percent")` to the caller's options before `Value.Set`. -/
+
+/-- The option list of the write. -/
+def presetOpts (reqMask : Option (List Path)) (known : Bool) (level : Name) : List WOpt :=
+  if known then [(WCtor.withUpdateMask reqMask).opt, (WCtor.withMoreUpdatePaths [[level]]).opt]
+  else [(WCtor.withUpdateMask reqMask).opt]
+
+/-- `lightpb.ModelServer.UpdateBrightness`: `edit` is what `setLevelFromPreset` makes of the written
+message (any function). -/
+def rpcModelBrightness (S : Schema) (ty : Nat) (resW reqMask : Option (List Path)) (known : Bool)
+    (level : Name) (edit : Fields → Fields) (stored src : Fields) : SetOut :=
+  writeWith S ty resW (presetOpts reqMask known level) stored (if known then edit src else src)
+
+/-- **C05_trait_preset_mask.**  The masks the write runs with: the request's mask as given when no
+configured preset is selected; with one, `level_percent` is appended to a non-nil mask (an EMPTY
+non-nil mask becomes `{level_percent}`: the rule applies to it too) and a nil mask — the whole
+message — stays nil; there is never a reset mask. -/
+theorem C05_trait_preset_mask (resW reqMask : Option (List Path)) (known : Bool) (level : Name) :
+    ((computeWriteConfig (presetOpts reqMask known level)).fieldUpdater resW).update
+        = (if known then reqMask.map (· ++ [[level]]) else reqMask) ∧
+    ((computeWriteConfig (presetOpts reqMask known level)).fieldUpdater resW).reset = none := by
+  rw [(writeWith_updater resW _).1, (writeWith_updater resW _).2]
+  cases known <;> cases reqMask <;> simp [presetOpts, specUpdate, specUpdateRev, specReset, specResetRev, WCtor.opt, maskOfPaths]
+
+/-- **C05_trait_preset_frame.**  Whether or not a preset is selected, and whatever the preset rule
+writes into the message: a top-level field `k` other than `level_percent` that the request's non-nil
+mask has no path through is exactly as stored after a successful call. -/
+theorem C05_trait_preset_frame (S : Schema) (ty : Nat) (resW : Option (List Path)) (M : List Path)
+    (known : Bool) (level : Name) (edit : Fields → Fields) (stored src st s : Fields) (k : Name)
+    (hMc : Clean M) (hMn : NonNil M) (hMk : NoHead k M) (hl : level ≠ k) (hlc : level ≠ "")
+    (hd : NotDisplaced S ty k)
+    (h : rpcModelBrightness S ty resW (some M) known level edit stored src = .ok st s) :
+    st.get k = stored.get k := by
+  unfold rpcModelBrightness writeWith at h
+  obtain ⟨hu, hr⟩ := C05_trait_preset_mask resW (some M) known level
+  have ha : Avoids k ((computeWriteConfig (presetOpts (some M) known level)).fieldUpdater resW) := by
+    refine ⟨?_, by intro R hR; rw [hr] at hR; cases hR⟩
+    rw [hu]
+    cases known
+    · exact ⟨hMc, hMn, hMk⟩
+    · refine ⟨?_, ?_, noHead_append_single hMk hl⟩
+      · intro p hp
+        rcases List.mem_append.mp hp with h1 | h1
+        · exact hMc p h1
+        · simp at h1; subst h1; simpa using hlc.symm
+      · intro p hp
+        rcases List.mem_append.mp hp with h1 | h1
+        · exact hMn p h1
+        · simp at h1; subst h1; simp
+  rw [← valueSetI_none] at h
+  exact C05_intercept_frame S ty _ none none stored _ st s k ha hd (by intro g hg; cases hg) h
+
+/-- The rule on the witness schema (`g` plays `level_percent`): an empty non-nil mask with a selected
+preset writes `g` (what `edit` made of it) and nothing else; without a preset it changes nothing. -/
+example : ∃ s s',
+    rpcModelBrightness wSchema 0 none (some []) true "g" (fun m => m.put "g" (.sc "i40")) wStored .nil
+      = .ok (.cons "f" (.msg (.cons "c" (.sc "i1") (.cons "d" (.sc "i2") .nil))) (.cons "g" (.sc "i40") .nil)) s ∧
+    rpcModelBrightness wSchema 0 none (some []) false "g" (fun m => m.put "g" (.sc "i40")) wStored .nil
+      = .ok wStored s' :=
+  ⟨.cons "g" (.sc "i40") .nil, .nil, by decide, by decide⟩
 
 /-! ## Non-vacuity -/
 
